@@ -75,8 +75,12 @@ def closed(node):
 
 
 def evaluate(node):
+    from mc.core import time_limit, CaseTimeout
     try:
         code = compile(ast.fix_missing_locations(ast.Expression(body=node)), '<fold>', 'eval')
-        return describe(eval(code, {'__builtins__': {}}, {}))
+        with time_limit(5):      # an expression the folder left alone because it is astronomically expensive stands for itself on both sides
+            return describe(eval(code, {'__builtins__': {}}, {}))
+    except CaseTimeout:
+        return ('too-expensive',)
     except Exception as e:
         return ('raises', type(e).__name__)
